@@ -9,6 +9,7 @@ import (
 	"context"
 	"encoding/binary"
 	"fmt"
+	"time"
 
 	p9p "github.com/frobnitzem/go-p9p"
 
@@ -22,7 +23,7 @@ import (
 func main() {
 	r := rep.Open()
 	defer r.Close()
-	r.Rule = "messages of all 27 kinds (boundary-dense fields, Twrite data up to 9000 bytes, Tread counts incl. 2^32-11..2^32-1) x msize in {24..64, frame-40..frame+40, 2^k+-1, 2^20} x live/cancelled context. Non-trivial: every call; distinct by canonical text."
+	r.Rule = "messages of all 27 kinds (boundary-dense fields, Twrite data up to 9000 bytes, Tread counts incl. 2^32-11..2^32-1) x msize in {24..64, frame-40..frame+40, 2^k+-1, 2^20} x live/cancelled/deadline-expired context. Non-trivial: every call; distinct by canonical text."
 	rng := prng.New(r.Seed)
 	per := r.N(10, 250)
 	for _, t := range wiregen.AllTypes {
@@ -144,6 +145,10 @@ func one(r *rep.Report, rng *prng.R, orig *p9p.Fcall, msize int, live bool) {
 	ctx, cancel := context.WithCancel(context.Background())
 	if !live {
 		cancel()
+		// half of the ended contexts have ended by their deadline rather than by cancellation
+		if rng.Chance(1, 2) {
+			ctx, cancel = context.WithDeadline(context.Background(), time.Now().Add(-time.Duration(rng.Pick(1, 1000, 3600000))*time.Millisecond))
+		}
 	}
 	// one call in eight has its context cancelled DURING the call (after the entry check): the call is
 	// past the point of no return, so it must behave exactly like a live one, and must not leave
@@ -171,7 +176,7 @@ func one(r *rep.Report, rng *prng.R, orig *p9p.Fcall, msize int, live bool) {
 		r.Fail("channel.WriteFcall.panic", fmt.Sprintf("WriteFcall panicked (%v, msize %d)", orig.Type, msize), c, nil)
 	case err == nil:
 		res = sx.L(sx.Sym("sent"))
-	case err == context.Canceled:
+	case err == context.Canceled || err == context.DeadlineExceeded:
 		res = sx.L(sx.Sym("ctx"))
 	case p9p.Overflow(err) > 0:
 		res = sx.L(sx.Sym("overflow"), sx.I(int64(p9p.Overflow(err))))
